@@ -428,3 +428,50 @@ func isBlank(s string) bool {
 	}
 	return true
 }
+
+// StructInput presents a record as a Go struct value instead of a map: a field is visible under its
+// key only when the key is an exported Go identifier, so the model sees exactly those entries (vis).
+// Fields have the dynamic values' own Go types (int, float64, bool, time.Time, string ...; nested
+// values stay maps / slices), plus one unexported field.
+func StructInput(in IVal) (vis IVal, mk func() any, ok bool) {
+	vis = IVal{Kind: "map", node: in.node}
+	var fs []reflect.StructField
+	seen := map[string]bool{}
+	for _, kv := range in.M {
+		k := kv.K
+		if k == "" || k[0] < 'A' || k[0] > 'Z' || seen[k] {
+			continue
+		}
+		ident := true
+		for _, c := range k {
+			if !(c == '_' || (c >= '0' && c <= '9') || (c >= 'a' && c <= 'z') || (c >= 'A' && c <= 'Z')) {
+				ident = false
+			}
+		}
+		if !ident {
+			continue
+		}
+		seen[k] = true
+		ft := reflect.TypeOf((*any)(nil)).Elem()
+		if x := kv.V.Go(nil); x != nil && len(vis.M)%2 == 0 {
+			ft = reflect.TypeOf(x) // a concretely typed field: 0, false and the zero time are still values
+		}
+		vis.M = append(vis.M, kv)
+		fs = append(fs, reflect.StructField{Name: k, Type: ft})
+	}
+	if len(fs) == 0 {
+		return vis, nil, false
+	}
+	fs = append(fs, reflect.StructField{Name: "hidden", PkgPath: "zogverif/eng", Type: reflect.TypeOf("")})
+	st := reflect.StructOf(fs)
+	mk = func() any {
+		v := reflect.New(st).Elem()
+		for i, kv := range vis.M {
+			if x := kv.V.Go(nil); x != nil {
+				v.Field(i).Set(reflect.ValueOf(x))
+			}
+		}
+		return v.Interface()
+	}
+	return vis, mk, true
+}
